@@ -385,4 +385,95 @@ theorem slay_addQuestion (qn : WName) (qt qc : Nat) (s s' : State) (hI : I s) (h
       rw [e.an, e.ns, e.ar]; exact hr2
   · intro _; rw [hs']
 
+
+/-! ### the calls that do not write names -/
+
+theorem pend_of_isSome {s s' : State} (he : s'.edns.isSome = s.edns.isSome) (ht : s'.tsig.isSome = s.tsig.isSome) :
+    pend s' = pend s := by
+  unfold pend; rw [he, ht]
+
+theorem slay_hdrOnly {s s' : State} (h : SLay s) (hI : I s) (k : HdrOnly s s') : SLay s' :=
+  slay_congr h hI.winv hI.inv.rr_hi (fun i hi _ => k.pre i hi) k.cursor k.rrStart
+    (fun g hg => by rw [k.gl]; exact hg) k.qd (by rw [k.an, k.ns, k.ar]) (pend_of_isSome k.edns k.tsig) k.sect
+
+theorem slay_same {s s' : State} (h : SLay s) (hI : I s) (e : Same s s') : SLay s' :=
+  slay_congr h hI.winv hI.inv.rr_hi (fun i _ hi => e.pre i hi) e.cursor e.rrStart
+    (fun g hg => by rw [e.gLabels]; exact hg) e.qd (by rw [e.an, e.ns, e.ar])
+    (by unfold pend; rw [e.edns, e.tsig]) e.sect
+
+/-- only the bookkeeping of the counts changed -/
+theorem slay_counts {s s' : State} (h : SLay s) (ho : s'.octets = s.octets) (hc : s'.cursor = s.cursor)
+    (hg : s'.gLabels = s.gLabels) (hr : s'.rrStart = s.rrStart) (hqd : s'.qdcount = s.qdcount)
+    (hs : s'.sect = s.sect) {d : Nat} (hp : pend s' = pend s + d)
+    (hcnt : s'.ancount + s'.nscount + s'.arcount = s.ancount + s.nscount + s.arcount + d) : SLay s' := by
+  refine ⟨?_, ?_, by rw [hs, hc, hr]; exact h.sq⟩
+  · obtain ⟨qs, h1, h2⟩ := h.q
+    exact ⟨qs, by rw [hr]; exact qchain_move (fun a k _ it => item_fields it ho hc hg) h1, by rw [hqd]; exact h2⟩
+  · intro hle
+    rw [hc] at hle
+    obtain ⟨rs, h1, h2⟩ := h.r hle
+    refine ⟨rs, ?_, by rw [hp, hcnt]; omega⟩
+    rw [hr, hc]
+    exact rchain_move (lo := 0) (fun a k _ _ it => item_fields it ho hc hg) (fun i _ _ => by rw [ho])
+      (Nat.zero_le _) h1
+
+theorem slay_setEdns (p : Nat) (s : State) (h : SLay s) (hI : I s) : SLay (setEdns p s).2 := by
+  unfold setEdns
+  repeat' split
+  all_goals first
+    | exact h
+    | skip
+  rename_i h1 h2 h3
+  have hn : s.edns = none := by cases he : s.edns <;> simp_all
+  refine slay_counts (d := 1) h rfl rfl rfl rfl rfl rfl ?_ ?_
+  · unfold pend; simp [hn]; omega
+  · show s.ancount + s.nscount + (s.arcount + 1) = _; omega
+
+theorem slay_setTsig (m : TsigMode) (rr : TsigRr) (s : State) (h : SLay s) (hI : I s) :
+    SLay (setTsig m rr s).2 := by
+  unfold setTsig
+  repeat' split
+  all_goals first
+    | exact h
+    | skip
+  rename_i h1 h2 h3
+  have hn : s.tsig = none := by cases he : s.tsig <;> simp_all
+  refine slay_counts (d := 1) h rfl rfl rfl rfl rfl rfl ?_ ?_
+  · unfold pend; simp [hn]
+  · show s.ancount + s.nscount + (s.arcount + 1) = _; omega
+
+theorem slay_clearRrs (s : State) (h : SLay s) (hI : I s) : SLay (clearRrs s).2 := by
+  simp only [clearRrs, M.modify_apply]
+  have hrr := hI.inv.rr_hi
+  refine ⟨?_, ?_, fun _ => rfl⟩
+  · obtain ⟨qs, h1, h2⟩ := h.q
+    refine ⟨qs, ?_, h2⟩
+    show QChain _ qs 12 s.rrStart
+    refine qchain_move (e := s.rrStart) (fun a k hk it => ?_) h1
+    refine item_move (lo := 0) it (fun _ _ => Nat.zero_le _) (fun _ _ _ => rfl) (by show a + k ≤ s.rrStart; omega) ?_
+    intro g hg hga
+    show g ∈ s.gLabels.filter (· < s.rrStart)
+    simp only [List.mem_filter, decide_eq_true_eq]
+    exact ⟨hg, by omega⟩
+  · intro _
+    refine ⟨[], rfl, ?_⟩
+    show 0 + pend _ = 0 + 0 + _
+    unfold pend
+    simp
+
+theorem slay_new (buf : Bytes) (limit : Nat) (s : State) (h : Writer.new buf limit = .ok s) : SLay s := by
+  unfold Writer.new at h
+  dsimp only at h
+  split at h
+  · cases h
+  · have hs := Out.ok.inj h
+    have h1 : s.rrStart = 12 := by rw [← hs]; rfl
+    have h2 : s.cursor = 12 := by rw [← hs]; rfl
+    have h3 : s.qdcount = 0 ∧ s.ancount = 0 ∧ s.nscount = 0 ∧ s.arcount = 0 ∧ s.edns = none ∧ s.tsig = none := by
+      rw [← hs]; exact ⟨rfl, rfl, rfl, rfl, rfl, rfl⟩
+    refine ⟨⟨[], by rw [h1]; rfl, by rw [h3.1]; rfl⟩, fun _ => ⟨[], by rw [h1, h2]; rfl, ?_⟩, fun _ => by rw [h1, h2]⟩
+    unfold pend
+    rw [h3.2.1, h3.2.2.1, h3.2.2.2.1, h3.2.2.2.2.1, h3.2.2.2.2.2]
+    rfl
+
 end QV.Writer
